@@ -29,6 +29,11 @@ Theorem C20_source_sites : Forall (fun s => (4 <= snd s)%Z) rate_limited_sites /
 Proof. exact src_sites_divisor. Qed.
 Print Assumptions C20_source_sites.
 
+(* every rate-limited site hands the backend a stream wrapped by the limiter whenever a limiter exists (no other condition) *)
+Theorem C20_source_sites_wrap : rate_limited_sites_wrap_unconditionally = true.
+Proof. exact gen_sites_wrap_unconditionally. Qed.
+Print Assumptions C20_source_sites_wrap.
+
 (* one stream; limit L > 0; sizes 0 <= d <= dmax <= L*quarter where TH + quarter <= PL (quarter = 1/4 for
    the source constants); any caller gaps and underlying latencies >= 0; over-sleep of time.sleep in [0, O]:
    the bytes whose passing instant lies in any window [t, t+T] are at most L*T + L*PL + dmax + L*O *)
